@@ -230,10 +230,24 @@ class Ctx:
     def note_exp(self, a, t):
         self._axiom("exp", t > 0)
 
+    def _generic_vars(self):
+        out = []
+        sc = getattr(self, "generic", None)
+        while sc is not None:
+            out.insert(0, sc.space.k)
+            sc = sc.parent
+        return out
+
     def fresh_int(self, name):
+        kv = self._generic_vars()
+        if kv:      # inside a generic loop iteration a fresh value is a function of the iteration
+            return z3.Function(fresh_name(name), *([z3.IntSort()] * len(kv) + [z3.IntSort()]))(*kv)
         return z3.Int(fresh_name(name))
 
     def fresh_real(self, name):
+        kv = self._generic_vars()
+        if kv:
+            return z3.Function(fresh_name(name), *([z3.IntSort()] * len(kv) + [z3.RealSort()]))(*kv)
         return z3.Real(fresh_name(name))
 
 
